@@ -271,6 +271,30 @@ func runC20(r *Run) {
 		r.Bad("R9", "anchor/app.NewHaqq", "", "not found")
 	}
 
+	// R10: the indexer's cursor is rebuilt from what the node still has
+	r.Rule("R10", "SHAPE.the-indexer-resumes-inside-the-block-store: the EVM indexer service keeps its position in a local variable that advances over every block, and after a restart re-derives it from the last block that *held an Ethereum transaction*; with block pruning (min-retain-blocks) the blocks after that height may be gone, the fetch fails and the loop retries the same height forever — a restarted node never indexes another transaction and eth_getTransactionByHash answers null where the node that kept running answers. OnStart therefore reads the node's earliest available height (SyncInfo.EarliestBlockHeight) when it picks its start")
+	if os, ok := P.FnOK("(*server.EVMIndexerService).OnStart"); ok {
+		reads := false
+		for _, g := range withAnon(os) {
+			eachInstr(g, func(in ssa.Instruction) {
+				switch v := in.(type) {
+				case *ssa.FieldAddr:
+					if _, f, ok := fieldOfAddr(v); ok && f == "EarliestBlockHeight" {
+						reads = true
+					}
+				case *ssa.Field:
+					if _, f, ok := fieldOfValue(v); ok && f == "EarliestBlockHeight" {
+						reads = true
+					}
+				}
+			})
+		}
+		r.Check(reads, "R10", fnID(os)+"#start-clamped-to-the-earliest-block", P.Pos(fnPos(os)), "OnStart reads SyncInfo.EarliestBlockHeight",
+			"the indexer service picks its start from LastIndexedBlock alone: T1 in block 5, blocks 6–39 without Ethereum transactions and pruned, restart after block 39, T2 in block 40 — the restarted node reports last indexed block 5 with the block store starting at 29, made 2710 failed fetches of height 6 in 3 s and answers nil for T2; the continuous node has both indexed")
+	} else {
+		r.Bad("R10", "anchor/(*server.EVMIndexerService).OnStart", "", "not found")
+	}
+
 	// ---------- R5 ----------
 	r.Rule("R5", "TABLE.memory-stores: memory stores are empty after a restart. NewHaqq creates memory store keys only for the tabled dependency module that rebuilds its memory store itself (capability); no Haqq keeper is wired with a memory store key and no Haqq function passes a *MemoryStoreKey to ctx.KVStore — a consensus value parked in a memory store is gone on a restarted node")
 	{
